@@ -104,6 +104,9 @@ package channel
 //@   pragma abstract NewKey
 //@   requires channels != nil
 //@   atcall DeleteChannels len(chs) == len(keysToDelete) && (forall j int :: 0 <= j && j < len(chs) ==> chs[j] == keysToDelete[j].StorageKey())
+//@   # it does not touch the key counter or the length of the batch
+//@   ensures s.leasedCounter == old(s.leasedCounter) && (s.leasedCounter != nil ==> s.leasedCounter.wrap == old(s.leasedCounter.wrap) && (s.leasedCounter.wrap != nil ==> kv.SpecCounterVal[s.leasedCounter.wrap] == old(kv.SpecCounterVal[s.leasedCounter.wrap])))
+//@   ensures len(*channels) == old(len(*channels))
 //@   modifies *
 //@   loop 0 modifies channels
 //@   loop 0 invariant len(*channels) == old(len(*channels)) && len(storageToDelete) == len(keysToDelete)
@@ -116,3 +119,38 @@ package channel
 //@ guarded_by Service.mu.externalNonVirtualSet mu
 //@ unshared New the service is built before it is published
 //@ unshared OpenService the service is built before it is published
+
+//@ # ---- createGateway (C15 "including failing requests in the middle of a batch"): the engine
+//@ # creates a batch channel by channel and keeps what it created before a failure, so when the
+//@ # engine or the metadata write fails the batch's channels are removed from the engine again.
+//@ # What is checked: both failure returns hand exactly the batch's storage keys to DeleteChannels
+//@ # (the two anchors must exist; a semantic "the engine holds none of them afterwards" needs the
+//@ # engine's state across the package boundary and DeleteChannels's own success).
+//@ ignorepkg github.com/synnaxlabs/x/set
+//@ ignorepkg github.com/synnaxlabs/x/types
+//@ import ts "github.com/synnaxlabs/synnax/pkg/storage/ts"
+//@ # helpers over samber/lo and an unsafe reinterpretation: element-wise maps (trusted)
+//@ trusted func KeysFromChannels(channels []Channel) (r Keys)
+//@   ensures len(r) == len(channels) && (forall i int :: 0 <= i && i < len(r) ==> r[i] == channels[i].Key())
+//@   modifies nothing
+//@ trusted func (k Keys) Storage() (r []ts.ChannelKey)
+//@   ensures len(r) == len(k) && (forall i int :: 0 <= i && i < len(r) ==> r[i] == k[i].StorageKey())
+//@   modifies nothing
+//@ trusted func toStorage(channels []Channel) (r []ts.Channel)
+//@   modifies nothing
+//@ trusted func (s *Service) validateFreeVirtual(channels *[]Channel) (err error)
+//@   modifies nothing
+//@ func (s *Service) createGateway(ctx context.Context, tx gorp.Tx, channels *[]Channel, opts CreateOptions) (err error)
+//@   pragma opaque_func_values
+//@   pragma abstract NewKey
+//@   requires channels != nil && len(*channels) <= 1048575
+//@   # service invariant: the key counter is open and within the 20-bit key space
+//@   requires s.leasedCounter != nil && s.leasedCounter.wrap != nil && kv.SpecCounterVal[s.leasedCounter.wrap] >= 0 && kv.SpecCounterVal[s.leasedCounter.wrap] <= 1048575
+//@   # createdKeys are the storage keys of the batch as it is handed to the engine (taken before the
+//@   # metadata write, which may rewrite the slice it is given) ...
+//@   assert_after "createdKeys := KeysFromChannels(toCreate).Storage()" len(createdKeys) == len(toCreate) && (forall j int :: 0 <= j && j < len(createdKeys) ==> createdKeys[j] == toCreate[j].Key().StorageKey())
+//@   # ... and exactly those are removed again on both failure paths
+//@   atcall DeleteChannels __eq(chs, createdKeys)
+//@   assert_before "return errors.Combine(err, s.cfg.TSChannel.DeleteChannels(createdKeys))#1" err != nil
+//@   assert_before "return errors.Combine(err, s.cfg.TSChannel.DeleteChannels(createdKeys))#2" err != nil
+//@   modifies *
